@@ -10,3 +10,10 @@ open RawPanelVerif.C07
 #print axioms framing
 #print axioms framing_of_singleLine
 #print axioms svgPinned_loses_content_counterexample
+#print axioms contentEq_invalid_utf8_counterexample
+#print axioms contentEq_trimmed_start_counterexample
+#print axioms strip_content
+#print axioms strip_content_utf8
+#print axioms stripSvg_content
+#print axioms strip_payload
+#print axioms stripSvg_payload
